@@ -4,6 +4,9 @@ Stage B (correspondence with Ptn.C16): the structure produced by `from_ttns` (ev
 ordered child list, in dict order) is compared exactly with the Lean model of from_ttns /
 _rec_add_children / add_symmetric_children_to_parent; the model's `order` answer (the regex filter of
 ttndo_contraction_order on the real identifier strings) is compared with the library's.
+Stage B (value): on real small-integer tensors the Lean model evaluates the binding record it computed for `trace_ttndo` /
+`ttndo_ttno_expectation_value` on the TTNDO's actual tensors (`C04 einrec`, `netValue`: the function and the record the
+value-level theorems trace_value / ttndo_ttno_value are about); the library's number must be that integer exactly.
 Stage C (oracle): trace() = <psi|psi> (unnormalised states), TTNO expectation = <psi|O|psi>, tensor
 products on 0..N sites with non-Hermitian factors = <psi|O|psi>, for root bond dimensions 1..4; the
 dense contraction of the TTNDO itself = psi (x) conj(psi); only index 0 of the padded root bond is
@@ -29,18 +32,25 @@ RULE = ("random trees 1..6 nodes (uniform/chain/star/spider/..., single node), c
         "(bra, ket) suffixes and parent_bra_leg omitted / None / explicit (oracle only), the documented ValueError; the "
         "network must be unchanged by the queries")
 PARTIAL = [
-    "value level (the contraction equals <psi|O|psi>) is decided by the dense oracle; Lean proves the structure of "
-    "from_ttns (ttndo_structure), the identifier maps (suffix_tagging, reverseId_append), the padding lemma "
-    "(padded_root_index, padded_root_no_contribution), the contraction-order filter (contraction_order_kets) and the "
-    "contraction GRAPHS of trace_ttndo and ttndo_ttno_expectation_value incl. _contract_ttno_root, "
-    "_single_site_contraction and _contract_final_block (trace_graph, ttndo_ttno_graph: no exception, no free leg, "
-    "the bound pairs are the specification graph, for every tree and independent child orders of the TTNO), on top "
-    "of the C04 tree model; the graphs are tied to the code by the einsum comparison of the `trace` / `ttno` cases",
-    "that a sum over the bound index pairs equals the dense value (NumPy tensordot semantics, finite-sum algebra) is "
-    "trusted; the model of from_ttns has no legs: that _rec_add_children attaches the right legs is decided by the "
-    "dense contraction of the TTNDO; tensor-product expectation values (deepcopy + absorb) are oracle only",
+    "value level: Lean proves (trace_value, trace_value_padded_root, ttndo_ttno_value, ttndo_ttno_value_padded_root; any "
+    "commutative semiring, all sizes and dimensions) that EVERY strongly well-formed contraction program whose binding "
+    "record is the one the model of trace_ttndo / ttndo_ttno_expectation_value produces (trace_graph, ttndo_ttno_graph) "
+    "evaluates to sum_{a,b} root[a,b] * sum_phys K_a * B_b (resp. the sandwich of the dense operator, inputs on the ket "
+    "copy, outputs on the bra copy), and with the identity root tensor and the padded root bond to sum_phys K_0 * B_0 for "
+    "every root bond dimension >= 1.  NOT proved: (a) that the library's own sequence of tensordot calls is such a "
+    "program over the node tensors (the provenance layer `Built` of C04 is not lifted to the TTNDO routines; tied to the "
+    "code by the `trace` / `ttno` record comparison and, on integer tensors, by the Lean model evaluating its own record "
+    "on the TTNDO's tensors: `model_value`); (b) the hypothesis `PaddedRoot` (dense vectors vanish off index 0 of the root "
+    "bond) is proved from the padded root TENSORS (padded_root_of_tensors); that the tensors from_ttns builds are padded "
+    "that way is padded_root_index for the model of numpy.pad plus the oracle on the real tensors; (c) that the bra tensors "
+    "are the conjugates of the ket tensors (<psi|psi> rather than a bilinear form) is decided by the dense oracle",
+    "Lean also proves the structure of from_ttns (ttndo_structure), the identifier maps (suffix_tagging, "
+    "reverseId_append), the padding lemma (padded_root_index, padded_root_no_contribution), the contraction-order filter "
+    "(contraction_order_kets); the model of from_ttns has no legs: that _rec_add_children attaches the right legs is "
+    "decided by the dense contraction of the TTNDO; tensor-product expectation values (deepcopy + absorb) are oracle only",
 ]
-ASSUMPTIONS = ["NumPy tensordot/pad/reshape semantics", "dense contraction by tensordot over labelled legs",
+ASSUMPTIONS = ["NumPy tensordot/pad/reshape semantics (tensordot = sum over a common index per pair: checked against the "
+               "Lean semantics by the `ein` stream of C04 and by `model_value` here)", "dense contraction by tensordot over labelled legs",
                "the caller passes a root_id that is not an identifier of the TTNDO's ket/bra copies"]
 
 MAX_DENSE = 72
@@ -118,12 +128,16 @@ def _make(case):
     par = case["par"]
     n = len(par)
     exact = case["exact"]
+    ints = bool(case.get("ints"))         # real small-integer tensors, small dimensions: the Lean model evaluates its record
     d = _phys(rng, n)
+    if ints:
+        d = [min(x, 2) for x in d]
     names = _names(case["names"], n, rng)
     open_dims = {i: [d[i]] for i in range(n)}
     dt = case.get("dtype", "c128")
-    psi, _, _, _ = gen.build_network(TreeTensorNetworkState, par, gen.random_bonds(rng, par), open_dims, rng, nprng,
-                                     names=names, small_int=exact, complex_=dt not in ("real", "int"))
+    bonds = gen.random_bonds(rng, par, (1, 2, 2)) if ints else gen.random_bonds(rng, par)
+    psi, _, _, _ = gen.build_network(TreeTensorNetworkState, par, bonds, open_dims, rng, nprng,
+                                     names=names, small_int=exact, complex_=(dt not in ("real", "int")) and not ints)
     if dt in ("int", "single", "view"):
         from harness.props.c04 import _convert
         _convert(psi, dt)
@@ -147,6 +161,8 @@ def _make(case):
             sites = rng.sample(range(n), rng.randint(1, min(3, n)))
             terms.append({s: gen.rand_tensor(nprng, (d[s], d[s]), True, exact) for s in sites})
         ttno, _ = algos.ttno_from_terms(par, phys, names, terms, rng, nprng)
+    elif ints:
+        ttno, _ = gen.random_ttno_like(rng, nprng, par, phys, bonds=(1, 2), names=names, small_int=True, complex_=False)
     else:
         ttno, _ = gen.random_ttno_like(rng, nprng, par, phys, names=names, small_int=exact)
     return rng, nprng, psi, ttno, names
@@ -290,6 +306,59 @@ def _graph_check(ctx, case, tag, rho, psi, ttno, names, mo_trace, mo_ttno, rid=R
         if abs(got - complex(ref)) > gtol * max(abs(complex(ref)), floor * scale):
             ctx.corr_fail(case, f"{tag} {what}: library {got!r} differs from the contraction over the model's global "
                                 f"binding list {complex(ref)!r}")
+            continue
+        _model_value(ctx, case, tag, what, mo, ops, got)
+
+
+MAX_MODEL_SUM = 40000
+
+
+def _model_value(ctx, case, tag, what, model_out, operands, got):
+    """Integer tensors: the Lean model itself evaluates its binding record on the TTNDO's actual tensors (`netValue` of
+    Ptn/Common/EinsumModel.lean over the record of `trace_ttndo` / `ttndo_ttno_expectation_value`: the function and the
+    record the value-level theorems `trace_value` / `ttndo_ttno_value` are about); the library's number must be that
+    integer exactly."""
+    from harness import einsum_corr
+    arrs = []
+    for arr, _ in operands:
+        a = np.asarray(arr)
+        if np.iscomplexobj(a):
+            if np.abs(a.imag).max(initial=0) != 0:
+                return
+            a = a.real
+        if np.abs(a - np.round(a)).max(initial=0) != 0:
+            return
+        arrs.append(np.round(a).astype(np.int64))
+    lpart, bpart = model_out.split(" | ")
+    legs = lpart.split()[1:]
+    binds = [tuple(x.split("~")) for x in bpart.split()[1:]]
+    num, dims, leaves = {}, [], []
+    for a, (_, labs) in zip(arrs, operands):
+        ll = []
+        for l, dd in zip(labs, a.shape):
+            num[l] = len(dims)
+            dims.append(int(dd))
+            ll.append(num[l])
+        leaves.append((ll, a))
+    size = 1
+    for a, _ in binds:
+        size *= dims[num[a]]
+    if size > MAX_MODEL_SUM:
+        ctx.tally("model_value", f"{what}: skipped (sum over more than {MAX_MODEL_SUM} index tuples)")
+        return
+    line = einsum_corr.einrec_line(dims, [num[l] for l in legs], [(num[a], num[b]) for a, b in binds], leaves)
+    ans = ctx.lean.batch([line])[0]
+    ctx.tally("model_value", what)
+    ctx.tally("model_value_bound_pairs", len(binds))
+    tab = einsum_corr.parse_table(ans, "full")
+    ctx.count(("model_value", what, line), nontrivial=len(binds) >= 4 and bool(tab) and tab[0] != 0, corr=True)
+    if tab is None or len(tab) != 1:
+        ctx.corr_fail(case, f"{tag} {what}: the value-level model rejects the model's own binding record on the TTNDO's "
+                            f"tensors: [{ans[:120]}]")
+        return
+    if complex(tab[0]) != complex(got):
+        ctx.corr_fail(case, f"{tag} {what}: library value {got!r} differs from the Lean model's evaluation {tab[0]} of its "
+                            f"binding record on the same integer tensors")
 
 
 def _hex(s):
@@ -468,7 +537,13 @@ def gen_cases(ctx):
                 "ttno": rng.choice(["random", "terms"])}
         _audit_axes(case, arng)
         cases.append(case)
-    # networks built by hand through the public SymmetricTTNDO API (custom suffixes, explicit / omitted parent_bra_leg)
+    # real small-integer states and TTNOs with small dimensions: the Lean model evaluates its own binding record
+    irng = ctx.subrng("ints")
+    for _ in range(ctx.n(150, 1500)):
+        kind = irng.choice([None, None, "chain", "star"])
+        n = irng.choice([3, 4]) if kind else irng.choice([1, 2, 2, 3, 3, 4])
+        cases.append({"par": gen.random_parent_array(irng, n, kind), "seed": irng.randrange(10 ** 9), "exact": True,
+                      "rdim": irng.choice([1, 2, 2, 3]), "names": "plain", "ttno": "random", "ints": True})
     for _ in range(ctx.n(160, 1600)):
         kind = arng.choice([None, None, "spider", "chain", "star"])
         n = arng.choice([3, 4, 5, 6]) if kind else arng.choice([1, 2, 3, 4, 5])
